@@ -87,6 +87,8 @@ def _violation_keys(ctx):
 
 def _run_one(args):
   prop, v, root = args
+  if v.get('kind') == 'rename-all':
+    return _run_rename_all(args)
   from sa import cli
   res = dict(name=v['name'], expect=v['kind'], file=v['file'], function=v['function'],
              edit=dict(old=v['old'][:120], new=v['new'][:120]))
@@ -134,13 +136,71 @@ def _run_one(args):
   return res
 
 
+def _run_rename_all(args):
+  """Whole-tree must-stay-silent variant: every function-local name of every
+  module is renamed (sa/rename.py; behaviour preserving - the pinned suite
+  passes on such a tree).  Expected: no new violation, no analysis error and
+  the same number of obligations per rule (a rule that keys on a local's name
+  would silently lose its instances)."""
+  prop, _, root = args
+  from sa import cli
+  from sa import rename as RN
+  res = dict(name='rename-all-locals', expect='silent', file='<every module>', function='<every function>',
+             edit=dict(old='<local name>', new='<local name>_rn'))
+  try:
+    base = I.load(root)
+    mod = cli.load_rules(prop)
+    overlay = {}
+    for rel, m in base.by_relpath.items():
+      if rel.endswith('_test.py'):
+        continue
+      try:
+        overlay[rel] = RN.rename_source(m.src, rel)[0]
+      except Exception:   # pylint: disable=broad-except
+        continue
+    vidx = I.variant(base, overlay)
+    bctx = R.Ctx(base, prop)
+    mod.run(bctx)
+    strip = lambda c: c.replace('_rn', '')
+    bkeys = {(r, strip(c)) for r, c in _violation_keys(bctx)}
+    def counts(ctx):
+      out = {}
+      for o in ctx.obs:
+        if not o.info:
+          out[o.rule] = out.get(o.rule, 0) + 1
+      return out
+    try:
+      vctx = cli.run_rules(mod, vidx, prop)
+    except I.AnalysisError as e:
+      res.update(outcome='FALSE-ANALYSIS-ERROR', detail=str(e))
+      return res
+    vviol = {(o.rule, o.construct) for o in vctx.obs if not o.ok and not o.info}
+    # constructs that quote source text differ by the suffix (and by where the text is cut)
+    new = sorted(k for k in vviol if (k[0], strip(k[1])) not in bkeys
+                 and not any(k[0] == b[0] and strip(k[1])[:60] == b[1][:60] for b in bkeys))
+    res['new_violations'] = [f'{r} {c}' for r, c in new][:6]
+    bc, vc = counts(bctx), counts(vctx)
+    lost = {r: (bc[r], vc.get(r, 0)) for r in bc if vc.get(r, 0) != bc[r]}
+    if new:
+      res['outcome'] = 'FALSE-ALARM'
+    elif lost:
+      res.update(outcome='COVERAGE-DEPENDS-ON-LOCAL-NAMES', detail=str(lost))
+    else:
+      res['outcome'] = 'as-expected'
+    res['modules_renamed'] = len(overlay)
+  except Exception:  # pylint: disable=broad-except
+    res.update(outcome='internal-error', detail=traceback.format_exc()[-400:])
+  return res
+
+
 def run_variants(mod, idx, prop, ctx, seed):
   variants = list(T.VARIANTS.get(prop, []))
   rnd = random.Random(seed)
   rnd.shuffle(variants)
   jobs = [(prop, v, idx.root) for v in variants]
   if not jobs:
-    return []
+    return [_run_rename_all((prop, None, idx.root))]
+  jobs.append((prop, dict(name='rename-all-locals', kind='rename-all'), idx.root))
   n = min(16, len(jobs), os.cpu_count() or 4)
   if n <= 1:
     return [_run_one(j) for j in jobs]
